@@ -91,7 +91,7 @@ def shard(ctx):
         x = rng.random()
         if x < 0.3:
             kind, text = 'tokensoup', hostile.token_soup(rng)
-        elif x < 0.5:
+        elif x < 0.46:
             kind, text = 'blocksoup', hostile.block_soup(rng)
         elif x < 0.54:
             kind, text = 'chainsoup', hostile.chain_soup(rng)
